@@ -29,6 +29,9 @@ type TargetsCase struct {
 	Targets []Target `json:"targets"`
 	ViaRun  bool     `json:"via_run"`            // `taskctl run a b` instead of `taskctl a b`
 	RunTask bool     `json:"run_task,omitempty"` // `taskctl run task a b` (tasks only)
+	// Decoy (with RunTask): for every task there is also a pipeline of the same name that does something else and
+	// ends the other way round; `run task NAME` means the task
+	Decoy bool `json:"decoy,omitempty"`
 }
 
 func runTargets(c TargetsCase, dir string) (vs []Violation) {
@@ -45,6 +48,15 @@ func runTargets(c TargetsCase, dir string) (vs []Violation) {
 			tk = tk.Set("allow_failure", true)
 		}
 		tasks = tasks.Set(tn, tk)
+		if c.Decoy && c.RunTask && !tg.Pipeline {
+			st := 0
+			if tg.Status == 0 || tg.Allow {
+				st = 7
+			}
+			dn := fmt.Sprintf("decoy%d", i)
+			tasks = tasks.Set(dn, gen.Map{{K: "command", V: gen.List{fmt.Sprintf("printf 'DECOY:%d\\n' >> %s; exit %d", i, trace, st)}}})
+			pipes = pipes.Set(tn, gen.List{gen.Map{{K: "name", V: "only"}, {K: "task", V: dn}}})
+		}
 		if tg.Pipeline {
 			pre := fmt.Sprintf("pre%d", i)
 			tasks = tasks.Set(pre, gen.Map{{K: "command", V: gen.List{fmt.Sprintf("printf 'PRE:%d\\n' >> %s", i, trace)}}})
@@ -172,8 +184,9 @@ func TestTargets(t *testing.T) {
 	rapid.Check(t, func(rt *rapid.T) {
 		n := rapid.IntRange(1, 4).Draw(rt, "n")
 		c := TargetsCase{ViaRun: rapid.Bool().Draw(rt, "via_run")}
+		onlyTasks := rapid.IntRange(0, 3).Draw(rt, "only-tasks") == 0
 		for i := 0; i < n; i++ {
-			tg := Target{Pipeline: rapid.Bool().Draw(rt, "pipeline")}
+			tg := Target{Pipeline: !onlyTasks && rapid.Bool().Draw(rt, "pipeline")}
 			tg.Side = tg.Pipeline && rapid.Bool().Draw(rt, "side")
 			if rapid.IntRange(0, 2).Draw(rt, "fails") == 0 {
 				tg.Status = rapid.IntRange(1, 255).Draw(rt, "status")
@@ -187,8 +200,9 @@ func TestTargets(t *testing.T) {
 				allTasks = false
 			}
 		}
-		if allTasks && rapid.IntRange(0, 2).Draw(rt, "run-task-subcommand") == 0 {
+		if allTasks && rapid.IntRange(0, 2).Draw(rt, "run-task-subcommand") > 0 {
 			c.RunTask = true
+			c.Decoy = rapid.Bool().Draw(rt, "same-named-pipelines")
 		}
 		k++
 		dir := filepath.Join(root, fmt.Sprint("c", k))
